@@ -16,11 +16,11 @@ let () = run_lines (fun toks ->
      | "sub" -> p2 (Model.subZ k a.(0) a.(1))
      | "sub_wc" -> p2 (Model.sub_wcZ k a.(0) a.(1) a.(2))
      | "cmp" -> string_of_z (Model.cmpZ k a.(0) a.(1))
-     | "lmul_naive" -> p2 (Model.lmul_naiveZ k a.(0) a.(1))
+     | "lmul_naive" -> p2 (Model.lmul_naiveZ thr k a.(0) a.(1))
      | "lmul_kara" -> p2 (Model.lmul_karaZ thr k a.(0) a.(1))
      | "lmul" -> p2 (Model.lmulZ thr k a.(0) a.(1))
-     | "laddmul" -> p3 (Model.laddmulZ k a.(0) a.(1) a.(2))
-     | "laddmul2" -> p3 (Model.laddmul2Z k a.(0) a.(1) a.(2))
+     | "laddmul" -> p3 (Model.laddmulZ thr k a.(0) a.(1) a.(2))
+     | "laddmul2" -> p3 (Model.laddmul2Z thr k a.(0) a.(1) a.(2))
      | "mul" -> hex_of_z (Model.mulZ thr k a.(0) a.(1))
      | "addmul" -> hex_of_z (Model.addmulZ thr k a.(0) a.(1) a.(2))
      | _ -> "UNKNOWN-OP")
